@@ -1,15 +1,65 @@
-"""Property -> units table (which real functions are put under contract for which property)."""
+"""Property -> units table: which real functions are put under contract for which property,
+what the level of the claim is and what stays assumed.  MANIFEST.json is generated from this."""
+
+TB_COMMON = "Verus 0.2026.09.13 + bundled Z3; vx extraction edits E1-E8 (DESIGN.md section 4); every env/ and specs/ item listed in evidence.coverage.trusted_base (external_body / assume_specification / uninterp / axiom), found by a mechanical scan on every run."
+A_WORLD = [
+    "rely of env/world.rs describes CLN and tokio faithfully: in the Exclusive phase nobody else writes datastore keys of the hash, parts only resolve unless our pay command runs, a completed part stays completed; in the Released phase another lifecycle keeps the durable invariant, every write of the state key bumps its generation, and it starts parts only after its own Pending write",
+    "at most one Exclusive lifecycle per hash: handle_htlc's entry().or_insert_with(..tokio::spawn..) (src/htlc_manager.rs:121-138) is outside Verus' subset and is assumed",
+    "E2: every awaited call runs to completion as one call; what other tasks do meanwhile is the rely-closure in each callee contract (valid because every future is awaited immediately in these functions)",
+    "E3: tokio::select! is a demonic choice of exactly one arm; unselected futures (sleep, recv) are cancel-safe",
+    "SHA-256 is collision free and the node reports payment_preimage only for parts whose preimage it verified (preimage_of is uninterpreted)",
+    "serde_json round trip of PersistPaymentState (de_state is uninterpreted, with ser/de axioms in env/cln_rpc.rs)",
+    "system clock is not before 1970 (duration_since(UNIX_EPOCH) is Ok)",
+]
+
+LIFE_NOTE = ("Trusted: " + TB_COMMON + " Interface contracts of specs/iface.rs are assumed at the call sites in payment_lifecycle and proved on the implementations in units store/provider/height where stated in evidence; "
+             "ghost world/rely/invariant argument of DESIGN.md section 6 (interleavings and crash points are covered through the rely and the inductive durable invariant, not enumerated).")
+
+
+def P(units, text, note, **kw):
+    d = {"units": units, "level": "proof", "level_text": text, "level_note": note}
+    d.update(kw)
+    return d
+
 
 PROPS = {
-    "C12": {
-        "units": ["fee"],
-        "level": "proof",
-        "level_text": "Proof (Verus, unbounded): fee_sufficient as extracted from src/messages.rs satisfies the exact integer predicate of the statement for all u64 x u64 x u32 x u32 outside the region of known finding F-C12-a, never answers true when the exact predicate is false anywhere, and has no overflow/panic. One proof covers checked and wrapping builds because no overflow occurs.",
-        "level_note": "Trusted: Verus+Z3; vstd specs of checked_mul/checked_add; extraction edits E1 (attributes) only. Known finding F-C12-a (amount*ppm >= 2^64 answers false) is excluded by region and reported as KNOWN-FINDING. Failure-message encoding and the gate clause are added by units failmsg/handle (see evidence).",
-        "explanation": "fee_sufficient verbatim from src/messages.rs against the exact integer predicate of the property statement (mathematical integers), incl. absence of overflow/panic.",
-        "assumptions": [],
-        "not_covered": [],
-    },
+    "C01": P(["lifecycle"],
+             "Proof (Verus, unbounded) on payment_lifecycle/resolve as extracted from src/htlc_manager.rs: every Resolve answer carries a key that is the preimage of a completed outgoing part of this hash or of its durable Succeeded record (hence preimage_of(hash)); the pay request carries the invoice and hash of this lifecycle.",
+             LIFE_NOTE, assumptions=A_WORLD,
+             not_covered=["CLN's own verification of the key", "SHA-256 itself (preimage_of is uninterpreted)"]),
+    "C02": P(["lifecycle"],
+             "Proof (Verus, unbounded): at each of the ten resolve(..) call sites of payment_lifecycle a Fail answer requires !live(w) && !pay_running in the ghost world, starting from ANY world that satisfies only the durable invariant (every restart image), under the rely (every interleaving). Known finding F-C02-a (read error of the stored state) is reported per call site.",
+             LIFE_NOTE, assumptions=A_WORLD,
+             not_covered=["that CLN's pay is not still running after a plugin-only restart (not observable through the RPCs used)"]),
+    "C03": P(["lifecycle", "fee"],
+             "Proof (Verus): the single pay call site requires fee_rhs(policy, amount) <= held total, max_fee <= held total (as read at initiation) - amount, the amount rule, the invoice of this hash, and that the counted HTLCs are still unanswered.",
+             LIFE_NOTE, assumptions=A_WORLD + ["sum of simultaneously held HTLC amounts < 2^64 msat"]),
+    "C04": P(["lifecycle"],
+             "Proof (Verus): at the pay call site max_cltv_delta <= max(0, min expiry of the HTLCs held at initiation - height returned by current_height() - cltv_delta) and <= policy delta; the arithmetic of src/htlc_manager.rs:576-583 is verified in place.",
+             LIFE_NOTE, assumptions=A_WORLD),
+    "C05": P(["lifecycle"],
+             "Proof (Verus): pay requires !live(w) && !pay_running; a Succeeded record is never followed by add_payment_attempt/pay; add_payment_attempt never overwrites a Succeeded record; the Free write of mark_failed is generation guarded (Released-phase rely).",
+             LIFE_NOTE, assumptions=A_WORLD),
+    "C06": P(["lifecycle", "fee"],
+             "Proof of the safety half (Verus): every normal return of payment_lifecycle has answered exactly once (resolve requires not yet released, lifecycle ensures released); no reachable panic in the functions under contract (unwrap/expect/todo!/overflow/index are obligations). Known finding F-C06-a (todo! reachable). Liveness clauses are not applicable to this technique (level_note).",
+             LIFE_NOTE + " NOT APPLICABLE clauses: 'eventually', 'no later than one MPP timeout', deadlock freedom (liveness / scheduler fairness).",
+             assumptions=A_WORLD),
+    "C08": P(["lifecycle"],
+             "Proof (Verus): durable invariant inv(w) (live or pay running => record Pending|Succeeded; Succeeded holds preimage_of(hash)) is preserved by every atomic step of payment_lifecycle: pay requires a durable Pending; mark_failed requires (generation still matches => nothing live); mark_succeeded requires the preimage of a completed part; rely steps preserve inv (lemma_rely_preserves_inv). Every prefix of every execution therefore satisfies inv.",
+             LIFE_NOTE, assumptions=A_WORLD, not_covered=["durability of CLN's datastore itself"]),
+    "C09": P(["lifecycle"],
+             "Proof (Verus) on the lifecycle side: started from any durable image, a Succeeded record is replayed; recovery writes are required to succeed absent faults by the store interface contract.",
+             LIFE_NOTE, assumptions=A_WORLD, not_covered=["'eventually retried' is the sender's behaviour"]),
+    "C11": P(["lifecycle"],
+             "Proof of the lower bound (Verus): a temporary_trampoline_failure produced with no attempt and no policy rejection implies now >= wait_started + mpp_timeout; every sleep is at most one mpp_timeout; timer/zero-time branches return without add_payment_attempt/pay. The upper bound is not applicable (timer/scheduler latency).",
+             LIFE_NOTE + " NOT APPLICABLE clause: the upper bound on the failure time.", assumptions=A_WORLD),
+    "C12": P(["fee"],
+             "Proof (Verus, unbounded): fee_sufficient as extracted from src/messages.rs satisfies the exact integer predicate of the statement for all u64 x u64 x u32 x u32 outside the region of known finding F-C12-a, never answers true when the exact predicate is false anywhere, and has no overflow/panic. One proof covers checked and wrapping builds because no overflow occurs.",
+             "Trusted: " + TB_COMMON + " vstd specs of checked_mul/checked_add. Known finding F-C12-a (amount*ppm >= 2^64 answers false) is excluded by region and reported as KNOWN-FINDING.",
+             assumptions=[]),
+    "C14": P(["lifecycle"],
+             "Proof of the two mechanisms (Verus): no RPC / channel wait / timer is started while the table lock is held (every such env call requires !lock_held; lock scope by ghost unlock marker E7). The scheduling statement itself is not applicable.",
+             LIFE_NOTE + " NOT APPLICABLE clause: 'a frozen RPC of A does not delay B' (liveness of tokio's scheduler).", assumptions=A_WORLD),
 }
 
 NOT_APPLICABLE = {}
